@@ -1,5 +1,5 @@
 """Property -> rule list. Each rule: (id, text, function(ctx, report))."""
-import rules_cmd, rules_expire, rules_conn, rules_auth, rules_tx, rules_db
+import rules_cmd, rules_expire, rules_conn, rules_auth, rules_tx, rules_db, rules_zset
 from shared import SERVER
 
 
@@ -23,6 +23,16 @@ def _c02():
         ("R-EXPIRE-X2", "the sweeper removes a key only under a dominating is_expired() test of the stored value, inside the same write-lock scope", rules_expire.rule_x2),
         ("R-EXPIRE-X3", "deadline written only by the ValueMetadata setters; TTL setters are called only from dedicated TTL functions; every insert stores a fresh StoredValue or (RENAME) the one it removed", rules_expire.rule_x3),
         ("R-EXPIRE-X4", "a function that stores/clears a deadline also updates the expiry index", rules_expire.rule_x4),
+    ]
+
+
+def _c04():
+    return [
+        ("R-DISPATCH", "every sorted-set command named by the property has a dispatcher arm reaching the engine with the right effect class and skip-list primitive", rules_cmd.make_dispatch_rule("C04")),
+        ("R-ATOMIC", "a refused multi-member ZADD adds nothing: no validation refusal reachable after the first mutation", rules_cmd.rule_atomic("C04")),
+        ("R-NAN", "every score handed to SkipList::insert in the engine is dominated by an is_nan()/is_finite() refusal of that very value", rules_zset.rule_nan),
+        ("R-SKIP-PAIR", "key index, node links and length stay in step: index insert -> node link, re-score unlinks before linking, index remove -> unlink, length written only by link/unlink", rules_zset.rule_skip_pair),
+        ("R-EMPTY", "removing the last member removes the key", rules_cmd.rule_empty),
     ]
 
 
@@ -73,9 +83,19 @@ def _c18():
     ]
 
 
+def _c03():
+    return [
+        ("R-DISPATCH", "every list/set/hash command named by the property has a dispatcher arm reaching the engine with the right effect class and storage primitive (e.g. LPUSH must reach a front insertion, RPOP a back removal)", rules_cmd.make_dispatch_rule("C03")),
+        ("R-ATOMIC", "no validation refusal reachable after a dataset mutation (handlers and engine methods of these commands)", rules_cmd.rule_atomic("C03")),
+        ("R-EMPTY", "every engine method that shrinks a collection has a reachable emptiness test followed by removal of the key", rules_cmd.rule_empty),
+    ]
+
+
 REGISTRY = {
     "C01": _c01,
     "C02": _c02,
+    "C03": _c03,
+    "C04": _c04,
     "C05": _c05,
     "C07": _c07,
     "C08": _c08,
